@@ -1,7 +1,7 @@
 (* C10 - facts about the copy-function inventory regenerated from core/state
    (coq/gen/C10CopyTable.v, translator "c10 copytable") *)
 From Coq Require Import List String NArith Bool.
-From VF.C10 Require Import Model ProofsTop.
+From VF.C10 Require Import Model ProofsTop Alias.
 From VF.gen Require Import C10CopyTable.
 Import ListNotations.
 Local Open Scope string_scope.
@@ -13,9 +13,14 @@ Local Open Scope string_scope.
 Definition allow_shared : list (string * string) :=
   [("StateDB", "db"); ("Validator", "MainPubKey"); ("Validator", "BlsPubKey"); ("Validator", "Ext");
    ("Validator", "consAddr"); ("stateObject", "data"); ("stateObject", "db"); ("stateObject", "code");
-   (* new containers whose elements come from the source: fresh log copies built in
-      the loop, immutable preimage byte strings, empty structs, uint16 counters *)
-   ("StateDB", "logs"); ("StateDB", "preimages"); ("StateDB", "stakingRecordsDirty");
+   ("stateObject", "delegations");
+   (* inside the account record and the validator extension, both copied by value *)
+   ("Account", "Balance"); ("Account", "CodeHash"); ("Account", "DelegationBalance"); ("Account", "DelegationsHash");
+   ("Extension", "Data")].
+(* new containers whose elements come from the source: immutable preimage byte
+   strings, empty structs, uint16 counters *)
+Definition allow_elems : list (string * string) :=
+  [("StateDB", "preimages"); ("StateDB", "stakingRecordsDirty");
    ("pendingRelationship", "delegatorPendingCount"); ("pendingRelationship", "validatorPendingCount")].
 (* fields deliberately not carried: per-transaction context, error memo, the
    snapshot bookkeeping (snapshots do not apply to a copy), a derived cache *)
@@ -35,6 +40,7 @@ Definition row_ok (r : string * string * bool * N) : bool :=
   N.leb cl 3
   || (N.eqb cl 4 && key_in (st, fd) allow_shared)
   || (N.eqb cl 5 && key_in (st, fd) allow_missing)
+  || (N.eqb cl 6 && key_in (st, fd) allow_elems)
   || key_in (st, fd) finding_fields.
 
 Lemma copy_table_ok : forallb row_ok copy_table = true.
@@ -58,3 +64,24 @@ Definition tree_flags : copy_flags := mkCF deepcopy_keeps_delegations copy_marks
 Lemma tree_flags_known : tree_flags = as_is \/ tree_flags = repaired \/
                          tree_flags = mkCF true false \/ tree_flags = mkCF false true.
 Proof. vm_compute. auto. Qed.
+
+(* ---- the aliasing layer over the regenerated table ------------------------------------------- *)
+(* no function of core/state or staking writes in place through a field the copy
+   shares with its original (append to, element assignment, copy into, sort,
+   big.Int update), nor into an element of a rebuilt container: the table has no
+   shared-MUTABLE entry.  (The database handle is shared and written by every
+   StateDB; it is a monotone content-addressed store: Proofs.views_le.) *)
+Lemma no_inplace_writes : inplace_sites = [].
+Proof. reflexivity. Qed.
+
+Definition cls_of (c : N) : cls :=
+  match c with
+  | 1%N => CValue | 2%N => CDeep | 6%N => CDeep | 3%N => CFresh | 4%N => CShared | _ => CMissing
+  end.
+(* the copy table of the working tree as the aliasing layer reads it; a rebuilt
+   container (class 6) is a deep-copied object whose own fields are shared *)
+Definition tree_tbl (ty f : N) : cls :=
+  match List.find (fun r => N.eqb (fst (fst r)) ty && N.eqb (snd (fst r)) f) copy_table_n with
+  | Some r => cls_of (snd r)
+  | None => CShared
+  end.
